@@ -304,3 +304,286 @@ impl WalStore for VWalStore {
         Ok(self.inner.lock().unwrap().files.contains_key(name))
     }
 }
+
+// =============================================================================================
+// Object store
+// =============================================================================================
+
+use redis_sim::streaming::{ListResult, ObjectMeta, ObjectStore};
+use std::future::Future;
+use std::io::{Error as IoError, ErrorKind, Result as IoResult};
+use std::pin::Pin;
+use std::task::{Context, Poll};
+
+#[derive(Clone, Copy, Debug, PartialEq, Eq)]
+pub enum ObjFault {
+    /// transient error, no effect
+    Fail,
+    /// put only: the object is left truncated (first half), then an error is returned
+    TruncatedPut,
+}
+
+impl ObjFault {
+    pub fn name(&self) -> &'static str {
+        match self {
+            ObjFault::Fail => "fail",
+            ObjFault::TruncatedPut => "truncated-put",
+        }
+    }
+}
+
+pub type ObjImage = BTreeMap<String, Vec<u8>>;
+
+#[derive(Clone, Debug)]
+pub struct ObjOp {
+    pub kind: &'static str, // put | get | exists | delete | list | rename | head
+    pub key: String,
+    pub ok: bool,
+    pub fault: Option<ObjFault>,
+    /// who issued it (label set by the harness before running a component)
+    pub actor: String,
+    /// for put: the full bytes the caller wanted to store (crash-inside-put variants)
+    pub put_bytes: Vec<u8>,
+}
+
+#[derive(Default)]
+struct ObjInner {
+    objects: ObjImage,
+    log: Vec<ObjOp>,
+    /// store contents after each logged op (index i = after op i)
+    snapshots: Vec<Arc<ObjImage>>,
+    plan: BTreeMap<usize, ObjFault>,
+    calls: usize,
+    actor: String,
+    yield_each_op: bool,
+}
+
+/// Logging, fault-injecting object store. Operations are atomic (like the repo's in-memory and
+/// S3 stores); with `yield_each_op` every operation first returns Pending once so that a
+/// scheduler can interleave two components at store-operation granularity.
+#[derive(Clone, Default)]
+pub struct VObjStore {
+    inner: Arc<Mutex<ObjInner>>,
+}
+
+struct YieldOnce(bool);
+impl Future for YieldOnce {
+    type Output = ();
+    fn poll(mut self: Pin<&mut Self>, cx: &mut Context<'_>) -> Poll<()> {
+        if self.0 {
+            Poll::Ready(())
+        } else {
+            self.0 = true;
+            cx.waker().wake_by_ref();
+            Poll::Pending
+        }
+    }
+}
+
+impl VObjStore {
+    pub fn new() -> Self {
+        Self::default()
+    }
+    pub fn from_image(img: &ObjImage) -> Self {
+        let s = Self::new();
+        s.inner.lock().unwrap().objects = img.clone();
+        s
+    }
+    pub fn set_plan(&self, plan: &[(usize, ObjFault)]) {
+        let mut i = self.inner.lock().unwrap();
+        i.plan = plan.iter().cloned().collect();
+    }
+    /// Fault indices are relative to calls made from now on.
+    pub fn reset_call_counter(&self) {
+        self.inner.lock().unwrap().calls = 0;
+    }
+    pub fn set_actor(&self, a: &str) {
+        self.inner.lock().unwrap().actor = a.to_string();
+    }
+    pub fn set_yield(&self, y: bool) {
+        self.inner.lock().unwrap().yield_each_op = y;
+    }
+    pub fn log(&self) -> Vec<ObjOp> {
+        self.inner.lock().unwrap().log.clone()
+    }
+    pub fn log_len(&self) -> usize {
+        self.inner.lock().unwrap().log.len()
+    }
+    pub fn calls(&self) -> usize {
+        self.inner.lock().unwrap().calls
+    }
+    pub fn image_now(&self) -> ObjImage {
+        self.inner.lock().unwrap().objects.clone()
+    }
+    /// Store contents after the first `prefix` logged operations (`base` = contents before op 0).
+    pub fn image_after(&self, base: &ObjImage, prefix: usize) -> ObjImage {
+        let i = self.inner.lock().unwrap();
+        if prefix == 0 {
+            base.clone()
+        } else {
+            (*i.snapshots[prefix - 1]).clone()
+        }
+    }
+    pub fn clear_log(&self) {
+        let mut i = self.inner.lock().unwrap();
+        i.log.clear();
+        i.snapshots.clear();
+    }
+
+    fn begin(&self) -> (Option<ObjFault>, bool, String) {
+        let mut i = self.inner.lock().unwrap();
+        let idx = i.calls;
+        i.calls += 1;
+        (i.plan.get(&idx).copied(), i.yield_each_op, i.actor.clone())
+    }
+
+    fn finish(&self, kind: &'static str, key: &str, ok: bool, fault: Option<ObjFault>, actor: String, put_bytes: Vec<u8>) {
+        let mut i = self.inner.lock().unwrap();
+        i.log.push(ObjOp { kind, key: key.to_string(), ok, fault, actor, put_bytes });
+        let snap = Arc::new(i.objects.clone());
+        i.snapshots.push(snap);
+    }
+}
+
+fn inj() -> IoError {
+    IoError::new(ErrorKind::Other, "injected object-store failure")
+}
+
+impl ObjectStore for VObjStore {
+    fn put<'a>(&'a self, key: &'a str, data: &'a [u8]) -> Pin<Box<dyn Future<Output = IoResult<()>> + Send + 'a>> {
+        Box::pin(async move {
+            let (fault, y, actor) = self.begin();
+            if y {
+                YieldOnce(false).await;
+            }
+            let res = match fault {
+                None => {
+                    self.inner.lock().unwrap().objects.insert(key.to_string(), data.to_vec());
+                    Ok(())
+                }
+                Some(ObjFault::TruncatedPut) => {
+                    self.inner.lock().unwrap().objects.insert(key.to_string(), data[..data.len() / 2].to_vec());
+                    Err(inj())
+                }
+                Some(ObjFault::Fail) => Err(inj()),
+            };
+            self.finish("put", key, res.is_ok(), fault, actor, data.to_vec());
+            res
+        })
+    }
+
+    fn get<'a>(&'a self, key: &'a str) -> Pin<Box<dyn Future<Output = IoResult<Vec<u8>>> + Send + 'a>> {
+        Box::pin(async move {
+            let (fault, y, actor) = self.begin();
+            if y {
+                YieldOnce(false).await;
+            }
+            let res = if fault.is_some() {
+                Err(inj())
+            } else {
+                match self.inner.lock().unwrap().objects.get(key) {
+                    Some(d) => Ok(d.clone()),
+                    None => Err(IoError::new(ErrorKind::NotFound, format!("not found: {key}"))),
+                }
+            };
+            self.finish("get", key, res.is_ok(), fault, actor, Vec::new());
+            res
+        })
+    }
+
+    fn exists<'a>(&'a self, key: &'a str) -> Pin<Box<dyn Future<Output = IoResult<bool>> + Send + 'a>> {
+        Box::pin(async move {
+            let (fault, y, actor) = self.begin();
+            if y {
+                YieldOnce(false).await;
+            }
+            let res = if fault.is_some() { Err(inj()) } else { Ok(self.inner.lock().unwrap().objects.contains_key(key)) };
+            self.finish("exists", key, res.is_ok(), fault, actor, Vec::new());
+            res
+        })
+    }
+
+    fn delete<'a>(&'a self, key: &'a str) -> Pin<Box<dyn Future<Output = IoResult<()>> + Send + 'a>> {
+        Box::pin(async move {
+            let (fault, y, actor) = self.begin();
+            if y {
+                YieldOnce(false).await;
+            }
+            let res = if fault.is_some() {
+                Err(inj())
+            } else {
+                self.inner.lock().unwrap().objects.remove(key);
+                Ok(())
+            };
+            self.finish("delete", key, res.is_ok(), fault, actor, Vec::new());
+            res
+        })
+    }
+
+    fn list<'a>(&'a self, prefix: &'a str, _continuation_token: Option<&'a str>) -> Pin<Box<dyn Future<Output = IoResult<ListResult>> + Send + 'a>> {
+        Box::pin(async move {
+            let (fault, y, actor) = self.begin();
+            if y {
+                YieldOnce(false).await;
+            }
+            let res = if fault.is_some() {
+                Err(inj())
+            } else {
+                let i = self.inner.lock().unwrap();
+                Ok(ListResult {
+                    objects: i
+                        .objects
+                        .iter()
+                        .filter(|(k, _)| k.starts_with(prefix))
+                        .map(|(k, v)| ObjectMeta { key: k.clone(), size_bytes: v.len() as u64, created_at_ms: 0, etag: None })
+                        .collect(),
+                    continuation_token: None,
+                })
+            };
+            self.finish("list", prefix, res.is_ok(), fault, actor, Vec::new());
+            res
+        })
+    }
+
+    fn rename<'a>(&'a self, from: &'a str, to: &'a str) -> Pin<Box<dyn Future<Output = IoResult<()>> + Send + 'a>> {
+        Box::pin(async move {
+            let (fault, y, actor) = self.begin();
+            if y {
+                YieldOnce(false).await;
+            }
+            let res = if fault.is_some() {
+                Err(inj())
+            } else {
+                let mut i = self.inner.lock().unwrap();
+                match i.objects.remove(from) {
+                    Some(d) => {
+                        i.objects.insert(to.to_string(), d);
+                        Ok(())
+                    }
+                    None => Err(IoError::new(ErrorKind::NotFound, format!("not found: {from}"))),
+                }
+            };
+            self.finish("rename", to, res.is_ok(), fault, actor, Vec::new());
+            res
+        })
+    }
+
+    fn head<'a>(&'a self, key: &'a str) -> Pin<Box<dyn Future<Output = IoResult<ObjectMeta>> + Send + 'a>> {
+        Box::pin(async move {
+            let (fault, y, actor) = self.begin();
+            if y {
+                YieldOnce(false).await;
+            }
+            let res = if fault.is_some() {
+                Err(inj())
+            } else {
+                match self.inner.lock().unwrap().objects.get(key) {
+                    Some(d) => Ok(ObjectMeta { key: key.to_string(), size_bytes: d.len() as u64, created_at_ms: 0, etag: None }),
+                    None => Err(IoError::new(ErrorKind::NotFound, format!("not found: {key}"))),
+                }
+            };
+            self.finish("head", key, res.is_ok(), fault, actor, Vec::new());
+            res
+        })
+    }
+}
